@@ -579,21 +579,19 @@ Proof.
 Qed.
 
 (* ================= regime theta <= eps < |sigma| (condition3 of rxso3_Ws) ================= *)
-(* the coefficients the code uses there; B3c is NOT the theta -> 0 limit of the true B coefficient
-   (it has sigma^2 e^sigma where the limit has sigma e^sigma) and behaves like 1/sigma^2 for small sigma *)
+(* the coefficients the code uses there: A3, B3 and C = (e^sigma - 1)/sigma are the theta -> 0 limits of the true
+   coefficients, i.e. the integrals of s e^{s sigma}, s^2/2 e^{s sigma}, e^{s sigma} over [0,1] *)
 Definition A3 (sg : R) : R := (1 + (sg - 1) * exp sg) / (sg * sg).
-Definition B3c (sg : R) : R := (1/2 * (sg * sg) * exp sg + exp sg - 1 - sg * sg * exp sg) / (sg * sg * sg).
+Definition B3 (sg : R) : R := (1/2 * (sg * sg) * exp sg + exp sg - 1 - sg * exp sg) / (sg * sg * sg).
 Lemma rxso3_Ws_regime3_abc (eps : R) (phi : vec3R) (sg : R) : vnorm phi <= eps -> eps < Rabs sg ->
-  rxso3_Ws eps (phi, sg) = abc (A3 sg) (B3c sg) ((exp sg - 1) / sg) phi.
+  rxso3_Ws eps (phi, sg) = abc (A3 sg) (B3 sg) ((exp sg - 1) / sg) phi.
 Proof.
-  intros H Hs. unfold rxso3_Ws, rxso3_Ws_coef, abc, A3, B3c. cbn [fst snd].
+  intros H Hs. unfold rxso3_Ws, rxso3_Ws_coef, abc, A3, B3. cbn [fst snd].
   replace (ltb eps (vnorm phi)) with false by (symmetry; cbn; now apply Rltb_false).
   replace (ltb eps (absF sg)) with true by (symmetry; rewrite absF_Rabs; cbn; now apply Rltb_true).
   cbn [texp tsin tcos TransR]. destruct phi as [[a b] c]. lie_unfold. split_pairs; ring.
 Qed.
 
-(* the part A3 K + C I of the model is within exp|sigma| (theta^3/6 + theta^2/2) of the exponential: the model's
-   error in this regime is B3c K^2 up to that *)
 Lemma exp_le' x y : x <= y -> exp x <= exp y.
 Proof. intros H. destruct H as [H|H]; [left; now apply exp_increasing | right; now rewrite H]. Qed.
 Lemma exp_t_le sg t : 0 <= t <= 1 -> exp (t * sg) <= exp (Rabs sg).
@@ -601,21 +599,64 @@ Proof.
   intros Ht. apply exp_le'. pose proof (Rabs_pos sg) as Hp.
   destruct (Rle_dec 0 sg); [rewrite (Rabs_pos_eq sg) in * by lra; nra | nra].
 Qed.
-Lemma A3_traj_derive sg t : sg <> 0 ->
-  is_derive (fun t => (1 + (t * sg - 1) * exp (t * sg)) / (sg * sg)) t (exp (t * sg) * t).
-Proof. intros H. auto_derive; [exact I|]. field. auto. Qed.
-Lemma Ws_coef_regime3 sg th : 0 < th <= 1 -> sg <> 0 ->
-  Rabs (A3 sg - At sg th 1) <= exp (Rabs sg) * (th * th / 6) /\ Rabs (0 - Bt sg th 1) <= exp (Rabs sg) * (1/2).
+(* trajectories whose values at t = 1 are A3, B3 and whose derivatives are t e^{t sigma}, t^2/2 e^{t sigma} *)
+Definition A3t (sg t : R) : R := (1 + (t * sg - 1) * exp (t * sg)) / (sg * sg).
+Definition B3t (sg t : R) : R := (exp (t * sg) * (t * t * (sg * sg) / 2 - t * sg + 1) - 1) / (sg * sg * sg).
+Lemma A3t_derive sg t : sg <> 0 -> is_derive (A3t sg) t (exp (t * sg) * t).
+Proof. intros H. unfold A3t. auto_derive; [exact I|]. field. auto. Qed.
+Lemma B3t_derive sg t : sg <> 0 -> is_derive (B3t sg) t (exp (t * sg) * (t * t / 2)).
+Proof. intros H. unfold B3t. auto_derive; [exact I|]. field. auto. Qed.
+Lemma A3t_01 sg : sg <> 0 -> A3t sg 0 = 0 /\ A3t sg 1 = A3 sg.
+Proof. intros H. unfold A3t, A3. rewrite Rmult_0_l, exp_0, !Rmult_1_l. split; [field; auto | reflexivity]. Qed.
+Lemma B3t_01 sg : sg <> 0 -> B3t sg 0 = 0 /\ B3t sg 1 = B3 sg.
+Proof. intros H. unfold B3t, B3. rewrite !Rmult_0_l, exp_0, !Rmult_1_l. split; field; auto. Qed.
+(* literally: A3, B3, C are the integrals over [0,1] *)
+Lemma A3_is_integral sg : sg <> 0 -> is_RInt (fun s => exp (s * sg) * s) 0 1 (A3 sg).
 Proof.
-  intros Ht Hs. assert (Hth : th <> 0) by lra. split.
-  - rewrite Rabs_minus_sym.
-    pose proof (traj_bound (At sg th) (fun t => (1 + (t * sg - 1) * exp (t * sg)) / (sg * sg))
-                  (fun t => exp (t * sg) * (sin (t * th) / th)) (fun t => exp (t * sg) * t) (exp (Rabs sg) * (th * th / 6))) as H.
-    cbv beta in H. rewrite !Rmult_1_l in H. apply H; clear H.
+  intros H. destruct (A3t_01 sg H) as [H0 H1].
+  replace (A3 sg) with (minus (A3t sg 1) (A3t sg 0)) by (rewrite H0, H1; unfold minus, plus, opp; cbn; ring).
+  apply (is_RInt_derive (A3t sg) (fun s => exp (s * sg) * s)).
+  - intros x _. now apply A3t_derive.
+  - intros x _. apply (ex_derive_continuous (fun s => exp (s * sg) * s)). auto_derive. exact I.
+Qed.
+Lemma B3_is_integral sg : sg <> 0 -> is_RInt (fun s => exp (s * sg) * (s * s / 2)) 0 1 (B3 sg).
+Proof.
+  intros H. destruct (B3t_01 sg H) as [H0 H1].
+  replace (B3 sg) with (minus (B3t sg 1) (B3t sg 0)) by (rewrite H0, H1; unfold minus, plus, opp; cbn; ring).
+  apply (is_RInt_derive (B3t sg) (fun s => exp (s * sg) * (s * s / 2))).
+  - intros x _. now apply B3t_derive.
+  - intros x _. apply (ex_derive_continuous (fun s => exp (s * sg) * (s * s / 2))). auto_derive. exact I.
+Qed.
+Lemma C3_is_integral sg : sg <> 0 -> is_RInt (fun s => exp (s * sg)) 0 1 ((exp sg - 1) / sg).
+Proof.
+  intros H.
+  replace ((exp sg - 1) / sg) with (minus (Cs sg 1) (Cs sg 0))
+    by (unfold Cs, minus, plus, opp; cbn; rewrite Rmult_0_l, Rmult_1_l, exp_0; field; auto).
+  apply (is_RInt_derive (Cs sg) (fun s => exp (s * sg))).
+  - intros x _. now apply Cs_derive.
+  - intros x _. apply (ex_derive_continuous (fun s => exp (s * sg))). auto_derive. exact I.
+Qed.
+
+Lemma Ws_coef_regime3 sg th : 0 < th <= 1 -> sg <> 0 ->
+  Rabs (A3 sg - At sg th 1) <= exp (Rabs sg) * (th * th / 6) /\
+  Rabs (B3 sg - Bt sg th 1) <= exp (Rabs sg) * (th * th / 24) /\
+  Rabs (0 - Bt sg th 1) <= exp (Rabs sg) * (1/2).
+Proof.
+  intros Ht Hs. assert (Hth : th <> 0) by lra. split; [|split].
+  - rewrite Rabs_minus_sym. destruct (A3t_01 sg Hs) as [H0 H1]. rewrite <- H1.
+    apply (traj_bound (At sg th) (A3t sg) (fun t => exp (t * sg) * (sin (t * th) / th)) (fun t => exp (t * sg) * t)).
     + intros t. now apply At_derive.
-    + intros t. now apply A3_traj_derive.
-    + rewrite At_0 by assumption. rewrite Rmult_0_l, exp_0. field. auto.
-    + intros t Htt. destruct (sin_over_th_bounds th t Ht Htt) as [[Hl Hu] H0].
+    + intros t. now apply A3t_derive.
+    + rewrite At_0, H0 by assumption. reflexivity.
+    + intros t Htt. destruct (sin_over_th_bounds th t Ht Htt) as [[Hl Hu] Hp].
+      rewrite <- Rmult_minus_distr_l, Rabs_mult, (Rabs_pos_eq (exp (t * sg))) by (left; apply exp_pos).
+      apply Rmult_le_compat; [left; apply exp_pos | apply Rabs_pos | now apply exp_t_le | apply Rabs_le; lra].
+  - rewrite Rabs_minus_sym. destruct (B3t_01 sg Hs) as [H0 H1]. rewrite <- H1.
+    apply (traj_bound (Bt sg th) (B3t sg) (fun t => exp (t * sg) * ((1 - cos (t * th)) / (th * th))) (fun t => exp (t * sg) * (t * t / 2))).
+    + intros t. now apply Bt_derive.
+    + intros t. now apply B3t_derive.
+    + rewrite Bt_0, H0 by assumption. reflexivity.
+    + intros t Htt. destruct (omcos_over_th2_bounds th t Ht Htt) as [[Hl Hu] Hp].
       rewrite <- Rmult_minus_distr_l, Rabs_mult, (Rabs_pos_eq (exp (t * sg))) by (left; apply exp_pos).
       apply Rmult_le_compat; [left; apply exp_pos | apply Rabs_pos | now apply exp_t_le | apply Rabs_le; lra].
   - rewrite Rminus_0_l, Rabs_Ropp.
@@ -626,25 +667,55 @@ Proof.
       rewrite Rabs_mult, (Rabs_pos_eq (exp (t * sg))) by (left; apply exp_pos).
       apply Rmult_le_compat; [left; apply exp_pos | apply Rabs_pos | now apply exp_t_le | apply Rabs_le; nra].
 Qed.
+(* the (repaired) model is within exp|sigma| (theta^3/6 + theta^4/24) of the exponential in this regime *)
+Theorem rxso3_Ws_regime3_close (eps : R) (phi : vec3R) (sg : R) : 0 < vnorm phi <= eps -> eps < Rabs sg -> eps <= 1 ->
+  forall i j, (i < 3)%nat -> (j < 3)%nat ->
+  Rabs (m3get (rxso3_Ws eps (phi, sg)) i j - m3get (mexp_Vmat phi sg) i j)
+    <= exp (Rabs sg) * ((vnorm phi)^3 / 6 + (vnorm phi)^4 / 24).
+Proof.
+  intros [H0 H] Hs He i j Hi Hj. rewrite rxso3_Ws_regime3_abc by assumption.
+  assert (Hsg : sg <> 0) by (intros ->; rewrite Rabs_R0 in Hs; lra).
+  unfold mexp_Vmat. destruct (Req_EM_T (vnorm phi) 0) as [Hz|_]; [lra|]. destruct (Req_EM_T sg 0) as [Hz|_]; [contradiction|].
+  unfold Ws1. rewrite Ws_th_abc. eapply Rle_trans; [apply abc_entry_bound_v; assumption|].
+  set (th := vnorm phi) in *. assert (Ht : 0 < th <= 1) by lra.
+  destruct (Ws_coef_regime3 sg th Ht Hsg) as (HA & HB & _).
+  replace (Cs sg 1) with ((exp sg - 1) / sg) by (unfold Cs; now rewrite Rmult_1_l).
+  rewrite (Rminus_diag_eq ((exp sg - 1) / sg)), Rabs_R0 by reflexivity.
+  set (ra := Rabs _) in HA |- *. set (rb := Rabs _) in HB |- *. clearbody ra rb.
+  pose proof (exp_pos (Rabs sg)) as Hep. set (e := exp (Rabs sg)) in *. clearbody e.
+  assert (Ha' : ra * th <= e * (th * th / 6) * th) by (apply Rmult_le_compat_r; lra).
+  assert (Hb' : rb * (th * th) <= e * (th * th / 24) * (th * th)) by (apply Rmult_le_compat_r; nra).
+  replace (e * (th ^ 3 / 6 + th ^ 4 / 24)) with (e * (th * th / 6) * th + e * (th * th / 24) * (th * th)) by field. lra.
+Qed.
+
+(* ---- history: the branch as coded before the repair in /repo (rxso3_Ws_B3_old: sigma^2 e^sigma where B3 has sigma e^sigma).
+   Ws_old_regime3 is the matrix rxso3_Ws returned then for theta <= eps < |sigma| *)
+Definition B3c (sg : R) : R := (1/2 * (sg * sg) * exp sg + exp sg - 1 - sg * sg * exp sg) / (sg * sg * sg).
+Lemma B3_old_eq (sg : R) : rxso3_Ws_B3_old sg = B3c sg.
+Proof. unfold rxso3_Ws_B3_old, B3c. cbn [texp TransR]. num_unfold. reflexivity. Qed.
+Definition Ws_old_regime3 (phi : vec3R) (sg : R) : @mat3 R :=
+  abc (A3 sg) (rxso3_Ws_B3_old sg) ((exp sg - 1) / sg) phi.
 Lemma abc_split_B (A B C : R) (x : vec3R) i j : (i < 3)%nat -> (j < 3)%nat ->
   m3get (abc A B C x) i j = m3get (abc A 0 C x) i j + B * m3get (mmul3 (skew x) (skew x)) i j.
 Proof.
   intros Hi Hj. destruct x as [[a b] c].
   destruct i as [|[|[|i]]]; try lia; destruct j as [|[|[|j]]]; try lia; unfold abc, m3get; lie_unfold; ring.
 Qed.
-Theorem rxso3_Ws_regime3_error (eps : R) (phi : vec3R) (sg : R) : 0 < vnorm phi <= eps -> eps < Rabs sg -> eps <= 1 ->
+(* the part A3 K + C I was within exp|sigma| (theta^3/6 + theta^2/2) of the exponential: the error of the old code
+   was B3_old K^2 up to that ... *)
+Theorem rxso3_Ws_old_regime3_error (phi : vec3R) (sg : R) : 0 < vnorm phi <= 1 -> sg <> 0 ->
   forall i j, (i < 3)%nat -> (j < 3)%nat ->
-  Rabs (m3get (rxso3_Ws eps (phi, sg)) i j - m3get (mexp_Vmat phi sg) i j - B3c sg * m3get (mmul3 (skew phi) (skew phi)) i j)
+  Rabs (m3get (Ws_old_regime3 phi sg) i j - m3get (mexp_Vmat phi sg) i j
+        - rxso3_Ws_B3_old sg * m3get (mmul3 (skew phi) (skew phi)) i j)
     <= exp (Rabs sg) * ((vnorm phi)^3 / 6 + (vnorm phi)^2 / 2).
 Proof.
-  intros [H0 H] Hs He i j Hi Hj. rewrite rxso3_Ws_regime3_abc by assumption.
-  assert (Hsg : sg <> 0) by (intros ->; rewrite Rabs_R0 in Hs; lra).
+  intros [H0 H] Hsg i j Hi Hj. unfold Ws_old_regime3.
   unfold mexp_Vmat. destruct (Req_EM_T (vnorm phi) 0) as [Hz|_]; [lra|]. destruct (Req_EM_T sg 0) as [Hz|_]; [contradiction|].
-  rewrite (abc_split_B _ (B3c sg)) by assumption.
+  rewrite (abc_split_B _ (rxso3_Ws_B3_old sg)) by assumption.
   match goal with |- Rabs (?a + ?b - ?c - ?b) <= _ => replace (a + b - c - b) with (a - c) by ring end.
   unfold Ws1. rewrite Ws_th_abc. eapply Rle_trans; [apply abc_entry_bound_v; assumption|].
   set (th := vnorm phi) in *. assert (Ht : 0 < th <= 1) by lra.
-  destruct (Ws_coef_regime3 sg th Ht Hsg) as [HA HB].
+  destruct (Ws_coef_regime3 sg th Ht Hsg) as (HA & _ & HB).
   replace (Cs sg 1) with ((exp sg - 1) / sg) by (unfold Cs; now rewrite Rmult_1_l).
   rewrite (Rminus_diag_eq ((exp sg - 1) / sg)), Rabs_R0 by reflexivity.
   set (ra := Rabs _) in HA |- *. set (rb := Rabs _) in HB |- *. clearbody ra rb.
@@ -653,10 +724,10 @@ Proof.
   assert (Hb' : rb * (th * th) <= e * (1/2) * (th * th)) by (apply Rmult_le_compat_r; nra).
   replace (e * (th ^ 3 / 6 + th ^ 2 / 2)) with (e * (th * th / 6) * th + e * (1/2) * (th * th)) by field. lra.
 Qed.
-(* B3c sigma ~ 1/sigma^2: at least 1/(2 sigma^2) for 0 < |sigma| <= 1/8 *)
-Lemma B3c_large sg : sg <> 0 -> Rabs sg <= 1/8 -> 1/2 <= B3c sg * (sg * sg).
+(* ... and B3_old sigma ~ 1/sigma^2: at least 1/(2 sigma^2) for 0 < |sigma| <= 1/8 (B3 tends to 1/6) *)
+Lemma B3_old_large sg : sg <> 0 -> Rabs sg <= 1/8 -> 1/2 <= rxso3_Ws_B3_old sg * (sg * sg).
 Proof.
-  intros Hs H. assert (H2 : Rabs sg <= 1/2) by lra.
+  intros Hs H. rewrite B3_old_eq. assert (H2 : Rabs sg <= 1/2) by lra.
   pose proof (Cex_close sg H2) as Hc. rewrite (Cex_nz sg Hs) in Hc.
   pose proof (exp_m1_bound sg H2) as He. apply Rabs_le_between in Hc. apply Rabs_le_between in He.
   replace (B3c sg * (sg * sg)) with ((exp sg - 1) / sg - sg * exp sg / 2) by (unfold B3c; field; auto).
@@ -665,9 +736,9 @@ Proof.
   destruct (Rle_dec 0 sg); [rewrite (Rabs_pos_eq sg) in * by lra | rewrite (Rabs_left1 sg) in * by lra]; nra.
 Qed.
 
-(* ---- a concrete failing input of the faithful model in exact real arithmetic (both dtypes' eps):
-   phi = (eps, 0, 0), sigma = 2 eps, tau = (0, 1, 0): the y-component of the translation of Exp is off by
-   more than 1/5 (the true value is ~1, the model returns ~3/4) *)
+(* ---- a concrete failing input of the OLD branch in exact real arithmetic (both dtypes' eps):
+   phi = (eps, 0, 0), sigma = 2 eps, tau = (0, 1, 0): the y-component of the translation was off by more than 1/5
+   (true value ~1, old code ~3/4); with the repaired coefficient the same input is within 10^-25 *)
 From Interval Require Import Tactic.
 Lemma vnorm_x_axis (a : R) : 0 <= a -> vnorm ((a, 0, 0) : vec3R) = a.
 Proof.
@@ -676,11 +747,12 @@ Proof.
 Qed.
 Lemma abc_axis_y (A B C a : R) : vc 1 (mvmul (abc A B C (a, 0, 0)) ((0, 1, 0) : vec3R)) = C - B * (a * a).
 Proof. unfold abc, vc. lie_unfold. ring. Qed.
-Lemma regime3_witness (eps : R) : eps = / 2^52 \/ eps = / 2^23 ->
+Lemma regime3_old_witness (eps : R) : eps = / 2^52 \/ eps = / 2^23 ->
   let tau : vec3R := (0, 1, 0) in let phi : vec3R := (eps, 0, 0) in let sg := 2 * eps in
   vnorm phi <= eps /\ eps < Rabs sg /\
   forall (E : @mat3 R) (p : vec3R), is_mexp_sim3 tau phi sg E p ->
-    Rabs (vc 1 (fst (sim3_exp eps (tau, (phi, sg)))) - vc 1 p) > 1/5.
+    Rabs (vc 1 (mvmul (Ws_old_regime3 phi sg) tau) - vc 1 p) > 1/5 /\
+    Rabs (vc 1 (fst (sim3_exp eps (tau, (phi, sg)))) - vc 1 p) < / 10^25.
 Proof.
   intros He tau phi sg.
   assert (Hp : 0 < eps) by (destruct He as [-> | ->]; interval).
@@ -689,16 +761,17 @@ Proof.
   rewrite Hv, Hs. split; [lra|]. split; [lra|].
   intros E p H. apply sim3_exponential in H; [|rewrite Hv; lra | unfold sg; lra]. destruct H as [_ ->].
   unfold sim3_exp. cbn [fst snd]. rewrite rxso3_Ws_regime3_abc by (rewrite ?Hv, ?Hs; lra).
-  unfold Ws1. rewrite Hv, Ws_th_abc. unfold tau, phi. rewrite !abc_axis_y.
-  unfold B3c, Bt, Cs, sg. rewrite !Rmult_1_l.
-  destruct He as [-> | ->]; interval with (i_prec 400).
+  unfold Ws_old_regime3, Ws1. rewrite B3_old_eq, Hv, Ws_th_abc. unfold tau, phi. rewrite !abc_axis_y.
+  unfold B3, B3c, Bt, Cs, sg. rewrite !Rmult_1_l.
+  split; destruct He as [-> | ->]; interval with (i_prec 400).
 Qed.
-Theorem sim3_regime3_refuted :
+Theorem sim3_old_regime3_refuted :
   forall eps : R, eps = / 2^52 \/ eps = / 2^23 ->
   exists (tau phi : vec3R) (sg : R), vnorm phi <= eps /\ eps < Rabs sg /\
     forall (E : @mat3 R) (p : vec3R), is_mexp_sim3 tau phi sg E p ->
-      Rabs (vc 1 (fst (sim3_exp eps (tau, (phi, sg)))) - vc 1 p) > 1/5.
-Proof. intros eps He. exists (0, 1, 0), (eps, 0, 0), (2 * eps). exact (regime3_witness eps He). Qed.
+      Rabs (vc 1 (mvmul (Ws_old_regime3 phi sg) tau) - vc 1 p) > 1/5 /\
+      Rabs (vc 1 (fst (sim3_exp eps (tau, (phi, sg)))) - vc 1 p) < / 10^25.
+Proof. intros eps He. exists (0, 1, 0), (eps, 0, 0), (2 * eps). exact (regime3_old_witness eps He). Qed.
 
 (* ================= distance of the modelled Exp to THE exponential, for every generator ================= *)
 Lemma rmin_pow_nonneg (th eps : R) (n : nat) (k : R) : 0 <= th -> 0 <= eps -> 0 < k -> 0 <= (Rmin th eps) ^ n / k.
@@ -802,6 +875,51 @@ Theorem sim3_exp_rotation_close (eps : R) (tau phi : vec3R) (sg : R) (E : @mat3 
   Rabs (m3get (RxSO3_matrix (snd (sim3_exp eps (tau, (phi, sg))))) i j - m3get E i j) <= exp sg * ((Rmin (vnorm phi) eps) ^ 7 / 3000).
 Proof.
   intros He [HE _] i j Hi Hj. unfold sim3_exp. cbn [fst snd]. now apply rxso3_exp_close_to_exponential.
+Qed.
+
+(* sim3, EVERY generator: translation within (8 min(|sigma|,eps) + exp|sigma| min(theta,eps)^3/5) |tau|_1 of the exponential *)
+Lemma rxso3_Ws_close_to_Vmat_total (eps : R) (phi : vec3R) (sg : R) : 0 <= eps <= 1/4 ->
+  forall i j, (i < 3)%nat -> (j < 3)%nat ->
+  Rabs (m3get (rxso3_Ws eps (phi, sg)) i j - m3get (mexp_Vmat phi sg) i j)
+    <= 8 * Rmin (Rabs sg) eps + exp (Rabs sg) * ((Rmin (vnorm phi) eps) ^ 3 / 5).
+Proof.
+  intros [He0 He1] i j Hi Hj. pose proof (vnorm_nonneg phi) as Hp. pose proof (Rabs_pos sg) as Hsp.
+  pose proof (rmin_pow_nonneg (vnorm phi) eps 3 5 Hp He0 ltac:(lra)) as Hm.
+  pose proof (exp_ineq1_le (Rabs sg)) as He. remember (exp (Rabs sg)) as e eqn:Ee.
+  set (m := Rmin (vnorm phi) eps ^ 3 / 5) in *.
+  assert (Hem : m <= e * m) by nra.
+  destruct (Rle_dec (Rabs sg) eps) as [Hs|Hs].
+  - rewrite (Rmin_left (Rabs sg)) by lra.
+    eapply Rle_trans; [apply rxso3_Ws_close_to_Vmat; try assumption; lra|]. fold m. lra.
+  - assert (Hs' : eps < Rabs sg) by lra. rewrite (Rmin_right (Rabs sg)) by lra.
+    assert (Hsg : sg <> 0) by (intros ->; rewrite Rabs_R0 in Hs'; lra).
+    assert (Hnn : 0 <= 8 * eps + e * m) by nra.
+    destruct (Req_EM_T (vnorm phi) 0) as [Hz|Hz].
+    + unfold mexp_Vmat. destruct (Req_EM_T (vnorm phi) 0) as [_|Hn]; [|contradiction].
+      rewrite rxso3_Ws_zero_rotation, Ws_C_model_exact by (auto; lra).
+      rewrite Rminus_diag_eq, Rabs_R0 by reflexivity. exact Hnn.
+    + destruct (Rlt_dec eps (vnorm phi)) as [Hl|Hl].
+      * unfold mexp_Vmat. destruct (Req_EM_T (vnorm phi) 0) as [Hz'|_]; [contradiction|].
+        destruct (Req_EM_T sg 0) as [Hz'|_]; [contradiction|].
+        rewrite rxso3_Ws_is_Ws1 by (auto; lra). rewrite Rminus_diag_eq, Rabs_R0 by reflexivity. exact Hnn.
+      * eapply Rle_trans; [apply rxso3_Ws_regime3_close; try assumption; lra|]. rewrite <- Ee.
+        unfold m. rewrite Rmin_left by lra. set (th := vnorm phi) in *.
+        assert (Ht : 0 < th <= 1/4) by lra. assert (H3 : 0 <= th ^ 3) by (apply pow_le; lra).
+        assert (H43 : th ^ 4 <= th ^ 3 / 4) by (replace (th ^ 4) with (th ^ 3 * th) by ring; nra).
+        assert (Hq : th ^ 3 / 6 + th ^ 4 / 24 <= th ^ 3 / 5) by lra.
+        assert (He1' : 0 <= e) by lra.
+        assert (Hee : e * (th ^ 3 / 6 + th ^ 4 / 24) <= e * (th ^ 3 / 5)) by (apply Rmult_le_compat_l; assumption).
+        lra.
+Qed.
+Theorem sim3_exp_translation_close_total (eps : R) (tau phi : vec3R) (sg : R) (E : @mat3 R) (p : vec3R) :
+  0 <= eps <= 1/4 -> is_mexp_sim3 tau phi sg E p ->
+  forall i, (i < 3)%nat ->
+  Rabs (vc i (fst (sim3_exp eps (tau, (phi, sg)))) - vc i p)
+    <= (8 * Rmin (Rabs sg) eps + exp (Rabs sg) * ((Rmin (vnorm phi) eps) ^ 3 / 5)) * norm1 tau.
+Proof.
+  intros He H i Hi. apply sim3_exponential_total in H. destruct H as [_ ->].
+  unfold sim3_exp. cbn [fst snd]. apply mvmul_entry_bound; [|exact Hi].
+  intros i' j' Hi' Hj'. now apply rxso3_Ws_close_to_Vmat_total.
 Qed.
 
 (* ================= the coefficient bounds stated on the model's coefficient functions ================= *)
